@@ -14,7 +14,7 @@ with atheris.instrument_imports(include=["molli.parsing", "molli.chem.structure"
 from vf.props import c10  # noqa
 
 OUT = sys.argv[1]
-SRCS = [{"fmt": "mol2", "file": f} for f in ("dummy_mol2", "dmf_mol2", "pentane_confs_mol2")] + [{"fmt": "xyz", "file": f} for f in ("dummy_xyz", "pentane_confs_xyz")] + [
+SRCS = [{"fmt": "mol2", "file": f} for f in ("dummy_mol2", "dmf_mol2", "pentane_confs_mol2", "isornitrate_mol2")] + [{"fmt": "xyz", "file": f} for f in ("dummy_xyz", "pentane_confs_xyz")] + [
     {"fmt": fmt, "mols": [
         {"name": "a", "charge": 0, "mult": 1, "attrib": {}, "atoms": [{"el": e, "iso": None, "label": None, "atype": 1, "stereo": 0, "geom": 0, "fc": 0, "fs": 0, "attrib": {}} for e in els],
          "coords": [[0.1 * i, 1.0 + i, -0.5 * i] for i in range(len(els))], "charges": [0.01 * i for i in range(len(els))],
